@@ -86,9 +86,25 @@ pub struct Scenario {
     /// 0 absolute path, 1 `oal.toml`, 2 `./oal.toml`, 3 `src/../oal.toml` or `./././oal.toml`
     #[serde(default)]
     pub conf_spelling: u8,
+    /// the configuration file lives in `conf/` and names main, target and base one level up
+    /// (so the target is outside the configuration's own directory); config-file mode only
+    #[serde(default)]
+    pub conf_in_subdir: bool,
+}
+
+fn conf_subdir(scn: &Scenario) -> bool {
+    scn.conf_in_subdir && scn.config_mode == 1 && scn.setting_style == 0
 }
 
 fn conf_arg(scn: &Scenario, root: &std::path::Path) -> std::ffi::OsString {
+    if conf_subdir(scn) {
+        return match scn.conf_spelling {
+            1 => "conf/oal.toml".into(),
+            2 => "./conf/oal.toml".into(),
+            3 => "conf/../conf/oal.toml".into(),
+            _ => root.join("conf/oal.toml").into_os_string(),
+        };
+    }
     match scn.conf_spelling {
         1 => "oal.toml".into(),
         2 => "./oal.toml".into(),
@@ -166,6 +182,7 @@ fn setting(scn: &Scenario, root: &std::path::Path, rel: &str) -> String {
     match scn.setting_style {
         1 => format!("{}/{rel}", root.display()),
         2 => format!("file://{}/{rel}", root.display()),
+        _ if conf_subdir(scn) => format!("../{rel}"),
         _ => rel.to_string(),
     }
 }
@@ -191,7 +208,7 @@ fn execute_inner(c: &Cfg, world: &World, scn: &Scenario, planted: Option<&[u8]>)
     world.reset("", &scn.files);
     let root = world.root.canonicalize().expect("root");
     let config = config_text(scn, &root);
-    world.write("oal.toml", &config);
+    world.write(if conf_subdir(scn) { "conf/oal.toml" } else { "oal.toml" }, &config);
     let rootp = format!("{}/", root.display());
     if scn.with_base {
         let b = if scn.fault == Fault::MalformedBase { "{ not: [yaml" } else { BASE_YAML };
@@ -623,6 +640,13 @@ pub fn check_lsp(world: &World, scn: &Scenario, o0: &Outcome) -> (Option<Violati
     if scn.folder_b {
         world.write("fb/oal.toml", CONFIG);
     }
+    if conf_subdir(scn) {
+        // a language server finds a folder's configuration at its top: the same settings there
+        let root = world.root.canonicalize().expect("root");
+        let mut plain = scn.clone();
+        plain.conf_in_subdir = false;
+        world.write("oal.toml", &config_text(&plain, &root));
+    }
     let mut peer = Peer::new2(world, true, scn.folder_b);
     for s in &scn.lsp {
         match s {
@@ -998,7 +1022,11 @@ pub fn run(seed: u64, run: u64) -> Report {
         folder_b_broken: folder_b && sr.chance(1, 2),
         symlinked: None,
         conf_spelling: *wl.pick(&[0, 0, 1, 1, 2, 3]),
+        conf_in_subdir: wl.chance(1, 4),
     };
+    if conf_subdir(&scn) {
+        probes.push("target_outside_the_configuration_directory".into());
+    }
     if wl.chance(1, 8) {
         let cands: Vec<String> = scn.files.keys().filter(|p| !p.ends_with("main.oal") && !p.starts_with("fb/")).cloned().collect();
         if !cands.is_empty() {
